@@ -515,6 +515,7 @@ Proof.
   - unfold live_step; rewrite drop_unfold, drop_nil. auto.
   - unfold live_step; rewrite drop_unfold, drop_nil. auto.
   - unfold reach. destruct pub; unfold live_step; rewrite drop_unfold, drop_nil; auto.
+  - unfold live_step; rewrite drop_unfold, drop_nil. auto.
 Qed.
 
 Lemma InvC_run h : forall st L,
@@ -571,6 +572,7 @@ Proof.
   - destruct boot; [auto|]. destruct r; rewrite ?In_set_add; try (intros [H|H]; auto); auto.
   - rewrite In_remove_all. tauto.
   - destruct r; rewrite ?In_remove_all; tauto.
+  - auto.
   - auto.
   - auto.
   - auto.
@@ -698,6 +700,7 @@ Proof.
     + intros q H. apply mem_add_keep; auto.
   - cbn [fst]. destruct HK as [Hl Hs]. split; auto.
   - cbn [fst]. unfold reach. destruct HK as [Hl Hs]. destruct pub; split; auto.
+  - cbn [fst]. destruct HK as [Hl Hs]. split; auto.
 Qed.
 
 Lemma wf_log_head cb L e r calls t :
@@ -891,6 +894,7 @@ Proof.
   - cbn [fst known]. apply len_add.
   - reflexivity.
   - unfold reach. now destruct pub.
+  - reflexivity.
 Qed.
 
 Lemma known_len_run cfg h : forall st, length (known (snd (run cfg st h))) = length (known st).
